@@ -270,9 +270,10 @@ def analyse(spec, W=None, threshold=None, timeout=10, delay=None, shim=None, wan
             if os.getpid() != parent:
                 return time.sleep(s)
             self.n_sleep += 1
+            requested = s          # what the code asked for (the shim below may make the parent oversleep)
             if shim and self.n_sleep == 1 and shim.get("first_sleep_extra"):
                 s = s + shim["first_sleep_extra"]
-            ev.add("sleep")
+            ev.add("sleep", d_us=int(round(requested * 1e6)))
             return time.sleep(s)
 
     saved = (kd.Process, kd.Manager, kd.cpu_count, KernelDG.INSTRUCTION_THRESHOLD, kd.time, os.kill)
